@@ -280,7 +280,7 @@ def run(chk):
                         "failing_cases_of_this_function": len(res["fails"][fn])}
         return None
 
-    chk.check_theorems(PROPS, search=search)
+    built, _ = chk.check_theorems(PROPS, search=search)
 
     # residue obligations: one per function of the harness
     ok_run = res.get("ran", False)
@@ -310,4 +310,14 @@ def run(chk):
                                          "line-plane and line-triangle hits, |p||e|/|N| for barycentrics, 1+scale/sqrt(disc) for sphere roots",
                                "counted_not_judged": res["counts"]}
     if chk.thorough:
-        chk.leanchecker(PROPS)
+        # the model at Rat against the geometric definition on rational configurations incl. every boundary case
+        for which in ("triangle", "sphere"):
+            g = rat_grid_search(chk, index, which, binary=bins.get("sym_c15"), idx_deps=[leaf_idx])
+            n = chk.extra.get("rat_grid_search", {}).get(which, {}).get("evaluated", 0)
+            chk.oblige("rat-grid:%s: model at Rat = geometric definition on %d rational configurations incl. edges/vertices/tangency/zero roots" % (which, n),
+                       "correspondence", g is None and n > 0, g)
+            chk.count(n, n)
+            if g:
+                chk.fail("rat-grid:" + which, "rat-grid:%s:%s" % (g["function"], g["class"]), "the extracted model disagrees with the geometric definition in exact arithmetic", g, True)
+        if built:
+            chk.leanchecker(PROPS)   # needs the compiled module: skipped while a theorem of the module is reported as failing
